@@ -384,7 +384,7 @@ func checkCase(c Case, srv *sharedServer, base *runResult) (nontrivial bool, err
 		base = &b
 	}
 	if base.Err != nil {
-		return false, fmt.Errorf("baseline run failed: %w", base.Err)
+		return false, fmt.Errorf("%w: baseline run failed: %v", errInfra, base.Err)
 	}
 	v, err := variantFor(c)
 	if err != nil {
@@ -392,7 +392,7 @@ func checkCase(c Case, srv *sharedServer, base *runResult) (nontrivial bool, err
 	}
 	got := run(c, v, srv.URL, false)
 	if got.Err != nil {
-		return false, fmt.Errorf("variant run failed: %w", got.Err)
+		return false, fmt.Errorf("%w: variant run failed: %v", errInfra, got.Err)
 	}
 	rep := reporters(base.Problems)
 	if c.Mechanism == mDefault {
@@ -718,7 +718,7 @@ func TestPropToggle(t *testing.T) {
 		defer srv.Close()
 		base := run(doc, variant{}, srv.URL, true)
 		if base.Err != nil {
-			rec.Fail(doc, base.Err)
+			// a rejected configuration or a crash is not what this property is about: no recorded case = inconclusive
 			rt.Fatalf("baseline run failed: %v", base.Err)
 		}
 		if len(base.MetaErrs) > 0 {
@@ -744,6 +744,9 @@ func TestPropToggle(t *testing.T) {
 			}
 			nontrivial, err := checkCase(c, srv, &base)
 			cls := c.Mechanism + " " + c.Name
+			if errors.Is(err, errInfra) {
+				rt.Fatalf("%v", err) // a rejected configuration or a crash: no recorded case = inconclusive
+			}
 			rec.Case(cls, nontrivial, cls+"\x00"+c.Config+"\x00"+filesKey(c.Files), func() any { return sample(c, base.Problems) })
 			if err != nil {
 				if id, ok := known[knownClass(c, err)]; ok {
@@ -801,6 +804,10 @@ func knownClass(c Case, err error) string {
 // ---------------------------------------------------------------------------
 // Binary tier
 
+// errInfra marks failures of the test machinery (not of pint): they end the test without a recorded case, which
+// the driver reports as inconclusive (exit 2), never as a violation.
+var errInfra = errors.New("infrastructure")
+
 type jsonReport struct {
 	Path     string `json:"path"`
 	Reporter string `json:"reporter"`
@@ -832,12 +839,27 @@ func runBinary(bin string, c Case, url string, flags []string) ([]problem, error
 	args := append([]string{"--no-color", "--log-level", "error"}, flags...)
 	args = append(args, "lint", "--json", "out.json", "--min-severity", "info")
 	args = append(args, paths...)
-	cmd := exec.Command(bin, args...)
-	cmd.Dir = dir
-	out, _ := cmd.CombinedOutput() // exit status 1 = problems found
-	b, err := os.ReadFile(filepath.Join(dir, "out.json"))
-	if err != nil {
-		return nil, fmt.Errorf("pint %v wrote no JSON report: %v\n%s", args, err, out)
+	var out []byte
+	var b []byte
+	for attempt := 0; ; attempt++ {
+		cmd := exec.Command(bin, args...)
+		cmd.Dir = dir
+		var runErr error
+		out, runErr = cmd.CombinedOutput() // exit status 1 = problems found
+		b, err = os.ReadFile(filepath.Join(dir, "out.json"))
+		if err == nil {
+			break
+		}
+		var ee *exec.ExitError
+		if errors.As(runErr, &ee) && len(out) > 0 {
+			// pint ran and refused the input: that is a result, not an infrastructure problem
+			return nil, fmt.Errorf("pint %v failed without a JSON report: %v\n%s", args, runErr, out)
+		}
+		if attempt >= 3 {
+			// the binary could not be started (replaced while we run, out of processes ...)
+			return nil, fmt.Errorf("%w: pint %v: %v / %v\n%s", errInfra, args, runErr, err, out)
+		}
+		time.Sleep(300 * time.Millisecond)
 	}
 	var reps []jsonReport
 	if err := json.Unmarshal(b, &reps); err != nil {
@@ -904,7 +926,7 @@ func TestPropBinary(t *testing.T) {
 		defer srv.Close()
 		base, err := runBinary(bin, doc, srv.URL, nil)
 		if err != nil {
-			rt.Fatalf("baseline: %v", err)
+			rt.Fatalf("baseline: %v", err) // no recorded case: inconclusive
 		}
 		for _, m := range []string{mDefault, mCLIDisabled, mCLIEnabled, mOffline} {
 			names := checks.CheckNames
@@ -920,6 +942,9 @@ func TestPropBinary(t *testing.T) {
 				nontrivial, err := checkBinaryCase(bin, c, srv, base)
 				cls := "binary " + m + " " + n
 				rec.Case(cls, nontrivial, cls+"\x00"+c.Config+"\x00"+filesKey(c.Files), func() any { return sample(c, base) })
+				if errors.Is(err, errInfra) {
+					rt.Fatalf("%v", err) // no recorded case: inconclusive
+				}
 				if err != nil {
 					if id, ok := known[knownClass(c, err)]; ok {
 						rec.KnownHit(id, c)
@@ -962,11 +987,15 @@ func TestReplay(t *testing.T) {
 		if bin == "" {
 			t.Skip("VERIF_PINT_BIN not set")
 		}
-		if _, err := checkBinaryCase(bin, c, srv, nil); err != nil {
+		if _, err := checkBinaryCase(bin, c, srv, nil); errors.Is(err, errInfra) {
+			t.Skipf("%v", err) // neither pass nor fail: the driver reports it as inconclusive
+		} else if err != nil {
 			t.Fatalf("%v", err)
 		}
 	default:
-		if _, err := checkCase(c, srv, nil); err != nil {
+		if _, err := checkCase(c, srv, nil); errors.Is(err, errInfra) {
+			t.Skipf("%v", err)
+		} else if err != nil {
 			t.Fatalf("%v", err)
 		}
 	}
